@@ -589,3 +589,36 @@ func VH_rename() {
 	verifAssert("renamed-program-runs", ok)
 	verifAssert("renaming-does-not-change-what-is-printed", sameLines(got, []string{"6", "14", "101", "6"}))
 }
+
+// VH_equivKeys (C13/C12): an object holding two properties whose names are canonically
+// equivalent but spelled differently (the same Bangla word with its vowel signs composed or
+// decomposed), and a removal given a third spelling. Whatever the removal does — the pinned
+// tree reports the key as absent — it does the same every time: the program is run twice, each
+// map range in its own order, and output and first diagnostic must repeat.
+func VH_equivKeys() {
+	// কো নো with (composed, decomposed), (decomposed, composed), (composed, composed)
+	s1 := "\u0995\u09cb\u09a8\u09c7\u09be"
+	s2 := "\u0995\u09c7\u09be\u09a8\u09cb"
+	s3 := "\u0995\u09cb\u09a8\u09cb"
+	var outs [2]string
+	for run := 0; run < 2; run++ {
+		in := NewInterpreter()
+		obj := map[string]interface{}{s1: 1.0}
+		obj[s2] = 2.0
+		in.globals.Define("o", obj)
+		prog := []ast.Stmt{
+			&ast.ExpressionStatement{Expression: &ast.Call{Callee: &ast.Literal{Value: NativeDeleteFn{}, Line: 2}, Paren: tok(token.RIGHT_PAREN, ")", 2), Arguments: []ast.Expr{ident("o", 2), lit(s3, 2)}}},
+			&ast.PrintStatement{Expression: ident("o", 3)},
+		}
+		utils.HadError, utils.HadRuntimeError = false, false
+		verifClearEvents()
+		in.Interpret(prog, false)
+		for i := 0; i < verifNumEvents(); i++ {
+			k := verifEventKind(i)
+			if k == 1 || k == 2 {
+				outs[run] += fmt.Sprint(k) + ":" + verifEventText(i)
+			}
+		}
+	}
+	verifAssert("same-output-every-time", outs[0] == outs[1])
+}
